@@ -125,6 +125,9 @@ def plan_pairs(tier, seed):
         pr("u16", "U2", "hi", "all", "canonical", "canonical", left_kind="set", right_kind="set", threads=2),
         pr("Ipv4Net", "U2", "hi", "whole", "structural", "structural", left_kind="set", right_kind="map", threads=4),
     ]
+    # two views of the SAME map: every pair of read-only roots (nested, equal, disjoint) and every pair of
+    # disjoint mutable views from recursive split
+    runs += [{"engine": "selfpairs", "ptype": t, "universe": "U2", "embed": e, "threads": 2} for t in (REP7 if tier == "quick" else ALL) for e in ("hi", "lo")]
     # other types and the bottom-of-address embedding: canonical x canonical, all root pairs
     for t in (ALL if tier == "thorough" else REP7):
         for e in ("hi", "lo"):
